@@ -637,6 +637,32 @@ def r09h(ctx, run):
         run.check(widened, fn.site(arm["ln"]), "a %s local assigned a %s value becomes %s" % (dn, vn, vn), fn.qual, "assign-follows-value:%s<-%s" % (dn, vn), fn.file, arm["ln"],
                   "a local that is still %s and is assigned a %s value is not given the type %s (replace_weak_tys calls: %s): it keeps the default 32-bit type and the "
                   "assigned value is stored truncated" % (dn, vn, vn, [(str(t), c07_name(ty)) for t, ty in calls]))
+    # the other direction: the destination has meanwhile been given a sized type (`a := 5; a = 300; b : u8 = a;` makes `a` a u8 when `b` is checked) and
+    # the assigned value is still weak: the value takes the DESTINATION's type - that is where a literal is tested against the type's range
+    for dn, dty, vn, vty in (("u8", V("Ty::UInt", {"0": 8}), "{uint}", weak_u), ("i16", V("Ty::IInt", {"0": 16}), "{int}", weak_i), ("u64", V("Ty::UInt", {"0": 64}), "{uint}", weak_u)):
+        calls = []
+
+        class RJ(QI):
+            def default_method(self, recv, m_, args, e):
+                if isinstance(recv, Obj) and recv.name == "self" and m_ == "replace_weak_tys":
+                    calls.append((args[0], args[1]))
+                    return True
+                return super().default_method(recv, m_, args, e)
+        it = RJ()
+        env = {"self": Obj("self"), "assign_body": Obj("assign_body", dest=Term("dest"), value=Term("value")), "dest_ty": dty, "value_ty": vty}
+        key = "value-follows-dest:%s<-%s" % (dn, vn)
+        try:
+            try:
+                it.eval(body, env)
+            except _Return:
+                pass
+        except (Panic, CannotEstablish) as c:
+            run.finding(fn.qual, key, fn.file, arm["ln"], "cannot establish what a plain assignment of a %s value to a %s local does: %s" % (vn, dn, getattr(c, "what", c)))
+            continue
+        typed = [ty for t, ty in calls if t == Term("value")]
+        run.check(typed == [dty], fn.site(arm["ln"]), "a %s value assigned to a local that became %s is given the type %s" % (vn, dn, dn), fn.qual, key, fn.file, arm["ln"],
+                  "a %s value assigned to a local that has become %s is given %s, it must be given %s: the literal is never tested against the range of %s and is stored "
+                  "truncated (`a := 5; a = 300; b : u8 = a;` stores 44)" % (vn, dn, [c07_name(t) for t in typed] or "no type", dn, dn))
 
 
 # forms whose type IS (or is built from) the type of their parts: when a literal inside was widened (an unannotated literal above i32::MAX becomes a
@@ -928,7 +954,7 @@ def rules(ctx):
         Rule("R09.c", "get_max_int_size(T) = min(max(T), u64::MAX) for every width; users reject exactly values > max, tested against the type the literal is given", 17, r09c),
         Rule("R09.e", "weak-type replacement reaches the literals inside every transparent expression form unconditionally", 18, r09e),
         Rule("R09.g", "weak-type replacement retypes only expressions whose value is made at that type; index/member expressions keep the type of the memory they read", 5, r09g),
-        Rule("R09.h", "a weak local that is assigned a sized value takes the value's type (plain-assignment arm of reinfer_usages evaluated)", 4, r09h),
+        Rule("R09.h", "a weak local that is assigned a sized value takes the value's type, a weak value assigned to a local that became sized takes the local's (plain-assignment arm of reinfer_usages evaluated)", 7, r09h),
         Rule("R09.i", "re-inference carries a widened literal's type up through every form whose type follows its parts", 8, r09i),
         Rule("R09.l", "the final pass widens a still-weak literal by its value alone: IntLiteral arm of reinfer_expr evaluated under every answer to its questions about other state", 16, r09l),
         Rule("R09.m", "weak-type replacement through `p^` gives the pointer expression a pointer type with the mutability of its own type (Deref arm of replace_weak_tys evaluated)", 6, r09m),
